@@ -122,3 +122,90 @@ def run_gaps(ctx):
     ctx.part("gap_patterns", evaluations=n, states=n, transitions=n * 3, distinct_nontrivial=len(outcomes),
              universe=U if ctx.tier == "quick" else 7, max_arrivals=K if ctx.tier == "quick" else 5)
     ctx.sample({"part": "gap_patterns", "pattern": list(pats[len(pats) // 2])})
+
+
+# ----------------------------------------------------------- frame kinds part
+def _kinds(role):
+    """ack-eliciting single-frame packets, including frames that refer to a stream the endpoint
+    has already discarded (they are ignored, but the packet is still ack-eliciting)"""
+    peer_bidi = 0 if role == "server" else 1          # initiated by the harness peer
+    done = peer_bidi                                   # this stream will be finished and discarded
+    other = peer_bidi + 4
+    e_uni = 3 if role == "server" else 2
+    k = [
+        ("PING", [{"t": "PING"}]),
+        ("RESET_STREAM_discarded", [{"t": "RESET_STREAM", "id": done, "err": 1, "final": 3}]),
+        ("STOP_SENDING_discarded", [{"t": "STOP_SENDING", "id": done, "err": 1}]),
+        ("MAX_STREAM_DATA_discarded", [{"t": "MAX_STREAM_DATA", "id": done, "max": 5000}]),
+        ("STREAM_DATA_BLOCKED_discarded", [{"t": "STREAM_DATA_BLOCKED", "id": done, "max": 3}]),
+        ("STREAM_dup_discarded", [{"t": "STREAM", "id": done, "off": 0, "data": b"req", "fin": True}]),
+        ("STREAM_new", [{"t": "STREAM", "id": other, "off": 0, "data": b"x", "fin": False}]),
+        ("MAX_DATA", [{"t": "MAX_DATA", "max": 10 ** 7}]),
+        ("DATA_BLOCKED", [{"t": "DATA_BLOCKED", "max": 5}]),
+        ("STREAMS_BLOCKED", [{"t": "STREAMS_BLOCKED", "uni": False, "max": 5}]),
+        ("MAX_STREAMS", [{"t": "MAX_STREAMS", "uni": True, "max": 500}]),
+        ("PATH_CHALLENGE", [{"t": "PATH_CHALLENGE", "data": b"12345678"}]),
+        ("RETIRE_CONNECTION_ID", [{"t": "RETIRE_CONNECTION_ID", "seq": 1}]),
+        ("NEW_CONNECTION_ID", [{"t": "NEW_CONNECTION_ID", "seq": 8, "rpt": 1, "cid": b"\xbb" * 8, "token": bytes(16)}]),
+        ("STOP_SENDING_e_uni_unopened", None),
+        ("DATAGRAM_like_PING_PADDING", [{"t": "PING"}, {"t": "PADDING", "n": 20}]),
+    ]
+    if role == "client":
+        k.append(("HANDSHAKE_DONE", [{"t": "HANDSHAKE_DONE"}]))
+        k.append(("NEW_TOKEN", [{"t": "NEW_TOKEN", "token": b"tok"}]))
+    return [x for x in k if x[1] is not None]
+
+
+def run_kind(args):
+    role, label, frames = args
+    bot = peerbot.PeerBot(role)
+    sid = 0 if role == "server" else 1
+    # request/response on `sid`, fully acknowledged: the endpoint discards the stream
+    bot.send([{"t": "STREAM", "id": sid, "off": 0, "data": b"req", "fin": True}])
+    bot.app("send_stream_data", lambda c: c.send_stream_data(sid, b"resp", end_stream=True))
+    for _ in range(3):
+        bot.ack()
+        t = bot.E.conn.get_timer()
+        if t is not None and t != bot.E.conn._close_at and t <= bot.w.now + 0.03:
+            bot.timer()
+        bot.ack()
+    bot.advance(0.2)
+    viol = None
+    try:
+        pn = bot.next_pn + 3          # a new largest packet number (with a gap)
+        t_arr = bot.w.now
+        r = bot.send(frames, pn=pn)
+        covered = any(lo <= pn <= hi for f in r.frames("ACK") for lo, hi in f["ranges"])
+        closed = bot.E.conn._state.name != "CONNECTED"
+        for _ in range(4):
+            if covered or closed:
+                break
+            t = bot.E.conn.get_timer()
+            if t is None or t > t_arr + 0.025 + 1e-6 or t == bot.E.conn._close_at:
+                break
+            r = bot.timer()
+            covered = any(lo <= pn <= hi for f in r.frames("ACK") for lo, hi in f["ranges"])
+        if not covered and not closed:
+            viol = ({"monitor": "ack.late", "part": "frame_kinds", "frame": label.split("_")[0]},
+                    "%s: an ack-eliciting packet carrying only %s (new largest packet number) was not "
+                    "acknowledged within 25 ms although the timer was fired when asked (next timer %r)"
+                    % (role, label, None if bot.E.conn.get_timer() is None else
+                       round(bot.E.conn.get_timer() - t_arr, 6)))
+    except core.HarnessError:
+        raise
+    except Exception as e:  # noqa
+        viol = ({"monitor": "api_exception", "exc": type(e).__name__, "part": "frame_kinds"},
+                "%s: %s with %s" % (type(e).__name__, e, label))
+    return role, label, viol, bot.E.conn._state.name
+
+
+def run_frame_kinds(ctx):
+    tasks = [(role, label, frames) for role in ("server", "client") for label, frames in _kinds(role)]
+    res = core.pmap(run_kind, tasks, chunksize=2)
+    outcomes = set()
+    for role, label, viol, state in res:
+        outcomes.add((label.split("_")[0], state))
+        if viol:
+            ctx.violation(dict(viol[0], role=role), viol[1], {"part": "frame_kinds", "role": role, "label": label})
+    ctx.part("ack_eliciting_frame_kinds", evaluations=len(res), states=len(res), transitions=len(res) * 6,
+             distinct_nontrivial=len(outcomes))
